@@ -46,6 +46,20 @@ def cases(tier, seed):
             if ('[1..' in e or '$pad' in e) and a not in ('0', '-0', '1', '-1', '2', '0.5', '5e-324', '-5e-324', '1e-308'):
                 continue  # sizes are bounded (C09's quantifier)
             add(e, {'a': [1, 2]}, ('edge', 'unary'))
+    # 'no value' produced INSIDE built-ins: callbacks that yield nothing on the first / a middle / the last / every member,
+    # for every higher-order function; the outcome must be 'no value' (ErrUndefined) or a value without holes, never a
+    # null that stands for a missing result
+    cbs1 = ['function($v,$i){$i = 0 ? $v}', 'function($v,$i){$i > 0 ? $v}', 'function($v,$i,$a){$i = $count($a) - 1 ? nothing : $v}', 'function($v){nothing}', 'function($v){$v.nosuch}', 'function($v,$i){$i = 1 ? nothing : $v}']
+    cbs2 = ['function($p,$q){$q > 5 ? $p + $q}', 'function($p,$q){nothing}', 'function($p,$q){$q = 7 ? nothing : $p}', 'function($p,$q){$q = 6 ? nothing : $q}', 'function($p,$q){$p.nosuch}', 'function($p,$q){$exists($p) ? nothing : $q}', 'function($p,$q){$q < $$.limit ? $p + $q}']
+    subs = ['[5]', '[5,6]', '[5,6,7]', '[7,6,5]', '[]', '5', 'nums']
+    wr = ['%s', '[%s]', '$exists(%s)', '{"r": %s}', '$string(%s)', '$count(%s)', '%s ~> $type()']
+    for sb in subs:
+        for cb in cbs1:
+            for h in ['$map(%s, %s)', '$filter(%s, %s)', '$single(%s, %s)', '$each({"a": 1, "b": 2}, %.0s%s)', '$sift({"a": 1, "b": 2}, %.0s%s)', '$sort(%s, %s)']:
+                add(rng.choice(wr) % (h % (sb, cb)), {'nums': [5, 6, 7], 'limit': 7}, ('hof-undefined',))
+        for cb in cbs2:
+            for init in ['', ', 0', ', nothing']:
+                add(rng.choice(wr) % ('$reduce(%s, %s%s)' % (sb, cb, init)), {'nums': [5, 6, 7], 'limit': 7}, ('hof-undefined',))
     return out
 
 def run(tier, seed, replay=None):
